@@ -131,10 +131,10 @@ PROPS["C01"] = dict(
     "reordering, partitions, replays), storage, block sync (incl. forged blocks) and the Byzantine validators (equivocating proposals, votes for "
     "everything, lying timeout votes, early/old certificates, floods, other chain/epoch, non-members), plus crashes/restarts. Directed families "
     "(equivocating-leader, hidden-commit, timeout-liar, lagging-sync) create the shapes known to threaten agreement. Every block any correct node "
-    "hands to storage is checked against a global map, the per-node sequence, and FinalBlock::verify. In the lagging-sync family one correct replica (the others still form a quorum without it) is cut off for the first half of the case and then catches up from a lying peer: for every missing block the genuine successor is offered first (it parks behind the gap and its call is cancelled), then the block, then the successor's certificate again with another payload - every submission must be verified in full. In the twins family every Byzantine key additionally runs two real replicas (the production code, own storage, own proposals) in opposite halves of a two-way partition that is re-drawn every 20-150 steps, so equivocating proposals and votes come from the real state machine as well as from the harness-signed adversary; twin replicas are never judged, their traffic is Byzantine traffic.",
+    "hands to storage is checked against a global map, the per-node sequence, and FinalBlock::verify. In half of the hidden-commit cases the correct voters of the hidden view are killed and restarted right after their commit vote left the node (before their next state change), so what they report in the following timeout comes from their durable state alone. In the lagging-sync family one correct replica (the others still form a quorum without it) is cut off for the first half of the case and then catches up from a lying peer: for every missing block the genuine successor is offered first (it parks behind the gap and its call is cancelled), then the block, then the successor's certificate again with another payload - every submission must be verified in full. In the twins family every Byzantine key additionally runs two real replicas (the production code, own storage, own proposals) in opposite halves of a two-way partition that is re-drawn every 20-150 steps, so equivocating proposals and votes come from the real state machine as well as from the harness-signed adversary; twin replicas are never judged, their traffic is Byzantine traffic.",
     assumptions=_SIM_ASSUME,
     stages=[dict(name="sim", flavour="release", **SIM), dict(name="sim-asan", flavour="asan", shards=8, tiers=["thorough"], args={"cases": 6}, **SIM)],
-    floors={"quick": {"cases_with_commits": 60, "blocks_handed_to_storage": 2000, "byzantine_messages_accepted_total": 200, "cases_hidden-commit": 10, "cases_equivocating-leader": 10, "cases_twins": 8, "messages_emitted_by_twin_replicas": 200, "views_with_two_different_proposals_by_twins_of_one_key": 1},
+    floors={"quick": {"cases_with_commits": 60, "blocks_handed_to_storage": 2000, "byzantine_messages_accepted_total": 200, "cases_hidden-commit": 10, "hidden_commit_voters_restarted_right_after_their_vote": 15, "cases_equivocating-leader": 10, "cases_twins": 8, "messages_emitted_by_twin_replicas": 200, "views_with_two_different_proposals_by_twins_of_one_key": 1},
             "thorough": {"cases_with_commits": 40}},
 )
 
